@@ -64,7 +64,7 @@ def run_path(unit, src, cs, fdef, prefix):
   ctx = Ctx(unit, prefix)
   ex = Exec(ctx)
   qual = contract.qualname
-  env = Env(src, cs, qualname=qual if not qual.endswith('.setter') else qual)
+  env = Env(src, cs, qualname=contract.fn_qualname)
   values = {}
   params = [a.arg for a in fdef.args.args]
   is_static = cs is not None and fdef.name in cs.static
@@ -73,6 +73,9 @@ def run_path(unit, src, cs, fdef, prefix):
     values['self'] = self_obj
     params = params[1:]
   for p in params:
+    if p in contract.const_args:
+      values[p] = contract.const_args[p]
+      continue
     if p not in contract.params:
       raise EngineError('%s: parameter %s has no declared shape' % (qual, p))
     values[p] = contract.params[p].fresh(ctx, p)
@@ -200,7 +203,7 @@ def verify_function(modname, qualname):
   sp = specmod.REGISTRY[modname]
   contract = sp.contracts[qualname]
   src = WORLD.source(modname)
-  fdef, cs = src.find(qualname)
+  fdef, cs = src.find(contract.fn_qualname)
   unit = Unit(WORLD, sp, contract)
   unit.fdef = fdef
   unit.vacuous = False
